@@ -64,8 +64,10 @@ func (r *inHeaderRecorder) HandleRPC(ctx context.Context, s stats.RPCStats) {
 		r.mu.Unlock()
 	}
 }
-func (r *inHeaderRecorder) TagConn(ctx context.Context, _ *stats.ConnTagInfo) context.Context { return ctx }
-func (r *inHeaderRecorder) HandleConn(context.Context, stats.ConnStats)                       {}
+func (r *inHeaderRecorder) TagConn(ctx context.Context, _ *stats.ConnTagInfo) context.Context {
+	return ctx
+}
+func (r *inHeaderRecorder) HandleConn(context.Context, stats.ConnStats) {}
 
 func genC04(t *rapid.T) ConvCase {
 	return genConvCase(t, 4, allKinds, kit.GenOpts{MaxMsgs: 3, MaxPayload: 64, OKBias: 70, WithMD: true}, []string{"direct", "direct", "demux", "proxy"})
